@@ -120,6 +120,27 @@ Theorem C13_spec_success_means_gone :
   DynRemove.rm_all fuel s d name = Some (s', Ok tt) -> FSModel.lookup s' d name = None.
 Proof. exact DynRemove.rm_all_gone. Qed.
 
+(* ---- C13, the exact statement ---------------------------------------------------------------------
+   [uniq]: names are unique within a directory.  Whenever the entry of a directory disappears, that
+   directory is empty from then on ([step_ok], true of every unlink/rmdir and therefore of rm_all); so after a
+   success every directory below the named one is empty, everything beneath it is gone, and -- with
+   C13_spec_removes_only_beneath -- the entries afterwards are EXACTLY the entries before minus the named
+   entry and what is beneath it. *)
+From PV Require DynRemoveExact.
+
+Theorem C13_spec_removes_everything_beneath :
+  forall fuel s d name s' n' c,
+  DynRemoveExact.uniq s -> Dyn.plain name = true -> DynRemove.rm_all fuel s d name = Some (s', Ok tt) ->
+  In (d, n', c) (FSModel.ents s) -> beq name n' = true -> FSModel.is_dir s c = true ->
+  forall e, DynRemove.beneath s c e -> ~ In e (FSModel.ents s').
+Proof. exact DynRemoveExact.rm_all_removes_everything_beneath. Qed.
+
+Theorem C13_spec_exact :
+  forall fuel s d name s',
+  DynRemoveExact.uniq s -> Dyn.plain name = true -> DynRemove.rm_all fuel s d name = Some (s', Ok tt) ->
+  forall e, In e (FSModel.ents s') <-> (In e (FSModel.ents s) /\ ~ DynRemove.under s d name e).
+Proof. exact DynRemoveExact.rm_all_exact. Qed.
+
 (* executed (non-vacuity): a/ has a sub-directory with a file, a link to a sibling and a link to the
    outside; remove_all("a") on both backends removes a and everything below, follows neither link
    (keep/ and its content stay), returns Ok; the pure function gives the same tree; remove_all of a
@@ -154,3 +175,5 @@ Print Assumptions C13_root_remove_all_exact.
 Print Assumptions C13_spec_only_removes.
 Print Assumptions C13_spec_removes_only_beneath.
 Print Assumptions C13_spec_success_means_gone.
+Print Assumptions C13_spec_removes_everything_beneath.
+Print Assumptions C13_spec_exact.
